@@ -126,6 +126,52 @@ theorem C19_forwarded_execute_before_result (tasksOf : Nat → List Name) (q : L
   have := merge_rep_before_res hm [] (fun w => Or.inl ⟨tasksOf w, rfl⟩) pre post n hq
   simpa using this
 
+/-! ### the process runner: reports crossing the process boundary (`MReporter`) as part of the run
+
+`FReach`: `MRunner` + `MReporter` as one transition system (`Model/Report.lean`): the run model plus the real result
+queue carrying the workers' forwarded `execute_task` reports and their results in FIFO order; the main process can
+only take the head of the queue. -/
+
+/-- `one_final_report` through `MReporter`: in every reachable state of the process runner with forwarded reports
+    * the callback stream satisfies the report discipline with `execute_task` reports included — exactly the
+      instance of `repOrd` the driver evaluates on real process-mode traces: every `execute_task n` is delivered after
+      `get_status n`, at most once and before any final report of `n`; `add_success` / `add_failure(TaskFailed |
+      TaskError)` of `n` only after `execute_task n` was delivered and the action ended (FIFO: the forwarded report is
+      ahead of the result on the queue);
+    * `execute_task n` reports delivered + still on the queue = starts of `n`'s actions: none is lost or duplicated, so
+      once the queue is drained `execute_task n` is present iff the actions of `n` were started;
+    * each task has no final report while unfinished and exactly the matching one when finished;
+    * `final_result` is `exitSpec` of the failure kinds reported. -/
+theorem C19_process_runner_reports (inp : RunInput) (hp : inp.runner = .process) (f : FSys) (hr : FReach inp f) :
+    repOrd true true (fun _ => false) f.base.events = true ∧
+    repOrd true true inp.noAct (trace inp f.base).reverse = true ∧
+    (∀ n, f.base.events.countP (Ev.isExecOf n) + f.fq.count (.rep n) = f.base.events.countP (Ev.isStartOf n)) ∧
+    (f.fq = [] → ∀ n, f.base.events.countP (Ev.isExecOf n) = f.base.events.countP (Ev.isStartOf n)) ∧
+    (∀ n, ((stOf f.base n).finished = false → f.base.events.filter (Ev.isTerminalOf n) = []) ∧
+      ((stOf f.base n).finished = true →
+        ∃ e, f.base.events.filter (Ev.isTerminalOf n) = [e] ∧ reportFor n (stOf f.base n) e)) ∧
+    f.base.final = exitSpec (failKinds f.base.events) ∧
+    exitCode f.base = exitOf f.base.halt (failKinds f.base.events) := by
+  have h := freach_inv hp hr
+  have hfin := h.fb.fin
+  rw [finalEv_eq_spec] at hfin
+  refine ⟨h.fb.ord, ?_, h.fb.ex, ?_, fun n => one_final_report_core h.fb.fl h.fb.ig h.b2 h.b3 n, hfin, ?_⟩
+  · rw [trace_reverse]; exact repOrd_filter inp _ _ _ h.fb.ord
+  · intro hq n
+    have := h.fb.ex n
+    simp only [pendOf, hq, List.count_nil, Nat.add_zero] at this
+    exact this
+  · unfold exitCode exitOf; cases f.base.halt <;> simp [hfin]
+
+/-- the queue discipline itself: the results on the real queue are the model's `resQ`; a forwarded report is never
+    behind the result of its task; a task whose report is still on the queue is still `run` (not yet reported) -/
+theorem C19_forward_queue (inp : RunInput) (hp : inp.runner = .process) (f : FSys) (hr : FReach inp f) :
+    f.fq.filterMap Msg.resName = f.base.resQ ∧
+    (∀ pre post n, f.fq = pre ++ Msg.res n :: post → Msg.rep n ∉ post) ∧
+    (∀ n, Msg.rep n ∈ f.fq → stOf f.base n = .run) :=
+  let h := freach_inv hp hr
+  ⟨h.q3, h.q1, h.q2⟩
+
 /-! ### the JSON reporter -/
 
 /-- `json`: whenever no task is left selected / executing (in particular at the end of a run) the `JsonReporter`
@@ -184,6 +230,14 @@ example : ∃ s, PReach exMixed s ∧ (∀ n, n < 6 → stOf s n ≠ .run) ∧
     jsonOf (trace exMixed s) = some [⟨1, some .fail, true⟩, ⟨2, some .fail, true⟩, ⟨0, some .success, true⟩,
       ⟨3, some .fail, false⟩] :=
   ⟨_, autoRun_preach (by decide) false true 400 _ PReach.init, by decide +kernel, by decide +kernel⟩
+
+/-- the process runner with forwarded reports on the same graph: the run completes, the queue is drained, all three
+    executed tasks were announced, and the report of task `2` was delivered while task `1` was still running -/
+example : ∃ f, FReach { exMixed with runner := .process } f ∧ f.base.events.contains Ev.complete = true ∧ f.fq = [] ∧
+    ((List.range 4).all fun n => f.base.events.countP (Ev.isExecOf n) == f.base.events.countP (Ev.isStartOf n)) = true ∧
+    f.base.events.countP (Ev.isExecOf 1) = 1 ∧ exitCode f.base = 2 :=
+  ⟨_, fauto_reach 500 _ FReach.init, by decide +kernel, by decide +kernel, by decide +kernel, by decide +kernel,
+    by decide +kernel⟩
 
 /-- a real interleaving of two producers: the queue hypothesis of `C19_forwarded_execute_before_result` is satisfiable
     with the second worker's messages between the first one's -/
